@@ -32,7 +32,7 @@ ASSUMPTIONS = ['sampled correspondence: d<=4, <=4 segments, <=3 noise operators,
 REL_TOL = 1e-8
 SIG_TL = 'c08-traceless-basis-nontraceless-oper'        # fixed by 2891db3 (classifier kept)
 SIG_PC = 'c08-pc-nontraceless-oper'                     # fixed by 2891db3 when control_matrix_pc is cached
-SIG_PC_UNCACHED = 'c08-pc-uncached-control-matrix-nontraceless-oper'
+SIG_PC_UNCACHED = 'c08-pc-uncached-control-matrix-nontraceless-oper'      # fixed by a9e668a (now a CalculationError)
 
 HEADER = ("From Coq Require Import ZArith List String.\n"
           "From FF Require Import Base.Ops Inst.Param Model.Consts Model.Numeric Model.Decay Model.Cumulant "
@@ -275,9 +275,14 @@ def pc_outputs(c, pars):
         if c.get('uncached'):
             p.cleanup('greedy')
         has_cm = bool(p.is_cached('control_matrix_pc'))
-        cor = ff.infidelity(p, S, om, n_oper_identifiers=ids, which='correlations')
+        sel_tl = bool(np.allclose(np.einsum('ajj->a', p.n_opers[c['idx']]), 0))
+        try:
+            cor = np.asarray(ff.infidelity(p, S, om, n_oper_identifiers=ids, which='correlations'))
+            err = None
+        except ff.util.CalculationError as exc:
+            cor, err = None, repr(exc)[:120]
     return dict(Bpc=Bpc, tot=np.asarray(tot), Gt=np.asarray(Gt), Gc=np.asarray(Gc), Kc=np.asarray(Kc), Kt=np.asarray(Kt),
-                cor=np.asarray(cor), has_cm=has_cm, pars=pars)
+                cor=cor, err=err, has_cm=has_cm, sel_tl=sel_tl, pars=pars)
 
 
 def predicates_pc(c, o=None):
@@ -291,6 +296,18 @@ def predicates_pc(c, o=None):
         bad.append(('pc_sum', 'c08-pc-sum-decay', 'pulse-correlation decay amplitudes do not sum to the total'))
     if np.abs(Kc.sum((0, 1)) - Kt).max() > 1e-11 * max(np.abs(Kt).max(), np.abs(Kc).max(), 1e-300):
         bad.append(('pc_sum', 'c08-pc-sum-cumulant', 'pulse-correlation cumulant functions do not sum to the total'))
+    # outcome of the correlations branch: a value, or CalculationError exactly when the pulse-correlation control matrix is
+    # gone and a selected noise operator has a trace (model: infidelity_pc .. = None)
+    expect_error = (not o['has_cm']) and (not o['sel_tl'])
+    if (cor is None) != expect_error:
+        bad.append(('pc outcome', 'c08-pc-outcome', 'infidelity(which=correlations): %s, expected %s (control_matrix_pc cached: %s, '
+                    'selected operators traceless: %s)' % ('CalculationError' if cor is None else 'a value',
+                                                           'CalculationError' if expect_error else 'a value', o['has_cm'], o['sel_tl'])))
+    if cor is None:
+        tk = trace_K(Kt, d)
+        if np.abs(tot - tk).max() > 1e-10 * max(np.abs(tot).max(), np.abs(tk).max(), 1e-300):
+            bad.append(('infidelity = -tr K/d^2', 'c08-infid-vs-cumulant-trace', 'total infidelity vs -tr K/d^2'))
+        return bad
     isc = max(np.abs(tot).max(), np.abs(cor).max(), 1e-300)
     nt = nontraceless_selected(p, idx)
     open_class = nt and not o['has_cm']          # uncorrected branch: no cached pulse-correlation control matrix
@@ -365,7 +382,12 @@ def coq_case_pc(name, c, out, big):
     bshape = np.broadcast_to(S, (len(idx),) * (shape - 1) + (no,)) if shape > 1 else S
     Gc, cor, Gt = out['Gc'], out['cor'], out['Gt']
     sG = max(np.abs(Gc).max(), np.abs(Gt).max(), 1e-300)
-    sI = max(np.abs(cor).max(), sG / p.d, 1e-300)
+    if cor is None:
+        cmp_I = "match Ic with None => (1, 0, 0)%N | Some _ => (0, 0, 1)%N end"
+    else:
+        sI = max(np.abs(cor).max(), sG / p.d, 1e-300)
+        cmp_I = (f"match Ic with Some Iv => tallyR O {emit.tol_lit(REL_TOL * sI, big)} {rvec_lit(cor.reshape(-1))}%Z (flat_pc1 Iv)"
+                 f" | None => (0, 0, 1)%N end")
     return (f"Definition {name} : N*N*N :=\n"
             f"  let O := {O} in\n"
             f"  let om := rvec O {rvec_lit(om)}%Z in\n"
@@ -376,10 +398,10 @@ def coq_case_pc(name, c, out, big):
             f"  let Bt := cm_pc_sum O {na} {nk} {no} Bpc in\n"
             f"  let Gt := decay_amplitudes O false false {na} {nk} {no} Bt Bt idx sp om in\n"
             f"  let bs := rmats O {carr_lit(np.asarray(p.basis.view(np.ndarray)))}%Z in\n"
-            f"  let Ic := infidelity_pc O {p.d} {cbool(out['has_cm'])} {na} {nk} {no} Bpc bs idx sp om in\n"
+            f"  let Ic := infidelity_pc O {p.d} {cbool(out['has_cm'])} {cbool(out['sel_tl'])} {na} {nk} {no} Bpc bs idx sp om in\n"
             f"  tadd (tallyR O {emit.tol_lit(REL_TOL * sG, big)} {rvec_lit(Gc.reshape(-1))}%Z (flat_pc Gc))\n"
             f"  (tadd (tallyR O {emit.tol_lit(REL_TOL * sG, big)} {rvec_lit(Gt.reshape(-1))}%Z (flat3 Gt))\n"
-            f"        (tallyR O {emit.tol_lit(REL_TOL * sI, big)} {rvec_lit(cor.reshape(-1))}%Z (flat_pc1 Ic))).\n")
+            f"        ({cmp_I})).\n")
 
 
 def impl_outputs_total(c, with_K):
@@ -461,7 +483,7 @@ def run(ctx):
     for i in range(n_pc):
         c = make_pc_case(r, ctx.thorough, i)
         inp = case_input(c)
-        c['uncached'] = (i % 4 == 3)
+        c['uncached'] = (i % 4 == 3) or (i % 8 == 4)      # error path (operators with trace) and uncorrected-exact path (traceless)
         inp = case_input(c)
         out = pc_outputs(c, pars=bool(i % 2))
         for obs, sig, det in predicates_pc(c, out):
